@@ -8,8 +8,20 @@ open Disjoint Proto
 
 def showSets (s : List (List Nat)) : String := "[" ++ " ".intercalate (s.map showNats) ++ "]"
 
-partial def go (all : Bool) (ds : DS) (acc : String) : List String → String
+partial def go (all : Bool) (sf : Bool := false) (ds : DS) (acc : String) : List String → String
   | [] =>
+    if sf then
+      -- mode `sf`: Roots, then Sets, then SmallestRep (the views run on the un-flattened structure)
+      let nroots := (roots ds).length
+      match sets ds with
+      | .ok (d1, ss) =>
+        match smallestRep d1 with
+        | .ok (_, sr) => acc ++ "sr=" ++ showNats sr.toList ++ " sets=" ++ showSets ss ++ " roots=" ++ toString nroots
+        | .panic => "panic"
+        | .outOfFuel => "outoffuel"
+      | .panic => "panic"
+      | .outOfFuel => "outoffuel"
+    else
     match smallestRep ds with
     | .ok (d1, sr) =>
       match sets d1 with
@@ -32,17 +44,17 @@ partial def go (all : Bool) (ds : DS) (acc : String) : List String → String
       | .ok d =>
         if all then
           match smallestRep d with
-          | .ok (d', sr) => go all d' (acc ++ showNats sr.toList ++ ";") rest
+          | .ok (d', sr) => go all sf d' (acc ++ showNats sr.toList ++ ";") rest
           | .panic => "panic"
           | .outOfFuel => "outoffuel"
-        else go all d acc rest
+        else go all sf d acc rest
       | .panic => "panic"
       | .outOfFuel => "outoffuel"
 
 def handle : List String → String
   | mode :: n :: ops =>
     match nat? n with
-    | some n => go (mode == "all") (new n) "" ops
+    | some n => go (mode == "all") (mode == "sf") (new n) "" ops
     | none => "bad-op"
   | _ => "bad-op"
 
